@@ -172,7 +172,9 @@ def classification_violations(y, p, out, ref=None):
         bad.append(("C19_confusion", cm, ref["confusion"]))
     for name, v, clause in (("accuracy", acc, "C19_accuracy"), ("recall", rec, "C19_recall"),
                             ("precision", prec, "C19_precision"), ("f1", f1, "C19_f1")):
-        if not ulp_close(v, ref[name]):
+        # <= 4 ulp of the correctly rounded exact value (always met for k <= 3: a handful of float operations);
+        # 1e-12 relative for many classes, where k roundings accumulate.  accuracy is one division: 1 ulp.
+        if not (ulp_close(v, ref[name], 1 if name == "accuracy" else 4) or (name != "accuracy" and rel_close(v, ref[name]))):
             bad.append((clause, v, ref[name]))
     return bad
 
@@ -376,8 +378,8 @@ def run(ctx, rep):
             preds = list(itertools.product(range(k), repeat=n))
             full = n <= nmax
             targets = list(admissible_targets(n, k))
-            if not full and k == 3:       # n = 7, k = 3: 100 random targets x every prediction vector
-                targets = rng.sample(targets, 100)
+            if not full and k == 3:       # n = 7, k = 3: 300 random targets x every prediction vector
+                targets = rng.sample(targets, 300)
             for y in targets:
                 B = batch_classification(y, preds)
                 rows_out = [one_classification(y, p, "exhaustive" if full else "n7-impl-vs-reference",
@@ -450,7 +452,7 @@ def run(ctx, rep):
                       float(SM.f1_score(ya, pa, labels=labels, average="macro", zero_division=0)))
                 out = classification_outputs(I.c, y, p)
                 rep.count("sklearn", (y, p))
-                okk = sk[0] == out[0] and all(abs(a - b) <= 4 * math.ulp(max(abs(a), abs(b), 2.0 ** -1022)) for a, b in zip(sk[1:], out[1:]))
+                okk = sk[0] == out[0] and all(abs(a - b) <= max(4 * math.ulp(max(abs(a), abs(b), 2.0 ** -1022)), 1e-12) for a, b in zip(sk[1:], out[1:]))
                 if not okk:
                     rep.problem("sklearn", "metric differs from scikit-learn (macro average, zero_division=0)",
                                 dict(fn="classification", y_true=list(y), y_predict=list(p)), "sklearn:macro", True, out, sk,
@@ -551,7 +553,7 @@ def run(ctx, rep):
     rep.exhaustive = True
     rep.exhaustive_note = (f"classification: every admissible (y_true, y_predict) with n<={nmax}, k<=3 classes (all metrics, all "
                            f"three implementations + both Coq models)"
-                           + (f"; n={n_py_only}: every pair for k<=2 and 100 random targets x every prediction for k=3, compiled "
+                           + (f"; n={n_py_only}: every pair for k<=2 and 300 random targets x every prediction for k=3, compiled "
                               f"implementation vs exact reference and batch==row-wise only" if n_py_only > nmax else ""))
 
 
